@@ -110,6 +110,14 @@ CHECKS = {
                      'with an exact deficit-round-robin reference written from the statement.',
                 note='After an idle period the visiting position is unspecified: the reference restarts at the first backlogged class.',
                 ref='4/C15'),
+    'C19': dict(engine='K', what='stop()/restart(tau) histories issued by controller processes and by the timer callback before, '
+                'exactly at and after expiries, several per instant, for one-shot and auto-restart timers with scalar/list/keyword args',
+                text='Seeded exploration on the real Timer: a three-field reference (pending expiry, stopped, period) is advanced along '
+                     'the G-ordered log of operations and bracketed callback invocations; every firing must match the pending expiry '
+                     'exactly, every pending expiry must fire, nothing fires after stop(), no call and no step raises.',
+                note='restart() after stop() and restart() of an expired one-shot timer from outside its callback are unspecified: '
+                     'afterwards only no-raise is demanded for that timer.',
+                ref='4/C19'),
 }
 
 ENGINES = [
